@@ -276,10 +276,14 @@ class Solver:
             for a in atoms:
                 v = self.var(a)
                 self.s.add(z3.Or([v == z3.RealVal(g) for g in grid]))
-            if str(self.s.check()) != 'sat':
-                return None
-            m = self.s.model()
-            return {a: _z3_to_frac(m.eval(v, model_completion=True)) for a, v in self.vars.items()}
+            self.s.set('timeout', min(self.timeout_ms, 20000))
+            try:
+                if str(self.s.check()) != 'sat':
+                    return None
+                m = self.s.model()
+                return {a: _z3_to_frac(m.eval(v, model_completion=True)) for a, v in self.vars.items()}
+            except z3.Z3Exception:
+                return None          # (non-linear path conditions: the solver gave up) - no dyadic witness, never a verdict
         finally:
             self.s.pop()
 
@@ -441,6 +445,7 @@ class Solver:
         self._ensure_vars(d, with_defs)
         self.s.set('timeout', self.timeout_ms if lin else min(self.timeout_ms, self.nl_timeout_ms))
         self.s.push()
+        defs_before = set(self.defs_emitted)      # definitions asserted inside this scope disappear with the pop below
         try:
             if scaled is None:
                 term = self.exact_term(d)
@@ -489,6 +494,7 @@ class Solver:
             return rs, model
         finally:
             self.s.pop()
+            self.defs_emitted = defs_before
             st.solver_s += time.time() - t0
 
     def _ensure_vars(self, d, with_defs):
